@@ -37,6 +37,16 @@ def log(*a):
     print(*a, flush=True)
 
 
+def _big_stack():
+    """extracted models are ordinary (non tail-recursive) OCaml: give them the largest stack the system allows"""
+    import resource
+    soft, hard = resource.getrlimit(resource.RLIMIT_STACK)
+    try:
+        resource.setrlimit(resource.RLIMIT_STACK, (hard, hard))
+    except (ValueError, OSError):
+        pass
+
+
 def _run(cmd, cwd, timeout, env, inp, merge):
     import signal
     if isinstance(cmd, str):
@@ -46,7 +56,8 @@ def _run(cmd, cwd, timeout, env, inp, merge):
         e.update(env)
     p = subprocess.Popen(cmd, cwd=cwd, env=e, stdin=subprocess.PIPE if inp is not None else subprocess.DEVNULL,
                          stdout=subprocess.PIPE, stderr=subprocess.STDOUT if merge else subprocess.PIPE,
-                         text=True, errors="replace", start_new_session=True)
+                         text=True, errors="replace", start_new_session=True,
+                         preexec_fn=_big_stack if "/ocaml/" in str(cmd[0]) else None)
     try:
         so, se = p.communicate(inp, timeout=timeout)
         return p.returncode, so or "", se or ""
